@@ -1,158 +1,7 @@
-import PrimaiteModel.Model.Registries
-open Primaite Primaite.Lifecycle Primaite.Registries
+import PrimaiteModel.Model.C13Wire
+open Primaite Primaite.Registries
 
-/-! Line-protocol driver for the software-layer model (C13).  One operation per line, one answer per line. -/
+/-! Line-protocol driver for the software-layer model (C13).  One operation per line, one answer per line.
+(The wire format lives in `PrimaiteModel/Model/C13Wire.lean`.) -/
 
-def showSvcState : SvcState → String
-  | .running => "RUNNING" | .stopped => "STOPPED" | .paused => "PAUSED" | .disabled => "DISABLED"
-  | .installing => "INSTALLING" | .restarting => "RESTARTING"
-def showAppState : AppState → String
-  | .running => "RUNNING" | .closed => "CLOSED" | .installing => "INSTALLING"
-def showHealth : Health → String
-  | .unused => "UNUSED" | .good => "GOOD" | .fixing => "FIXING" | .compromised => "COMPROMISED" | .overwhelmed => "OVERWHELMED"
-def parseHealth : String → Option Health
-  | "UNUSED" => some .unused | "GOOD" => some .good | "FIXING" => some .fixing | "COMPROMISED" => some .compromised
-  | "OVERWHELMED" => some .overwhelmed | _ => none
-def showPower : Power → String
-  | .on => "ON" | .off => "OFF" | .booting => "BOOTING" | .shuttingDown => "SHUTTING_DOWN"
-def parsePower : String → Option Power
-  | "ON" => some .on | "OFF" => some .off | "BOOTING" => some .booting | "SHUTTING_DOWN" => some .shuttingDown | _ => none
-def parseProto : String → Option Nat
-  | "none" => some 0 | "tcp" => some 1 | "udp" => some 2 | "icmp" => some 3 | _ => none
-def showProto : Nat → String
-  | 0 => "none" | 1 => "tcp" | 2 => "udp" | 3 => "icmp" | _ => "?"
-def showStatus : Status → String
-  | .success => "success" | .failure => "failure" | .unreachable => "unreachable"
-
-def parseSvcReq : String → Option SvcReq
-  | "scan" => some .scan | "stop" => some .stop | "start" => some .start | "pause" => some .pause
-  | "resume" => some .resume | "restart" => some .restart | "disable" => some .disable | "enable" => some .enable
-  | "fix" => some .fix | "compromise" => some .compromise | _ => none
-def parseAppReq : String → Option AppReq
-  | "scan" => some .scan | "close" => some .close | "execute" => some .execute | "fix" => some .fix
-  | "compromise" => some .compromise | _ => none
-
-def parseSvcEv : List String → Option SvcEv
-  | ["start"] => some (.start true) | ["stop"] => some .stop | ["pause"] => some .pause | ["resume"] => some .resume
-  | ["restart"] => some .restart | ["disable"] => some .disable | ["enable"] => some .enable | ["scan"] => some .scan
-  | ["fix"] => some .fix | ["compromise"] => some .compromise | ["tick"] => some .tick
-  | ["setdur", r, f] => match r.toInt?, f.toInt? with
-    | some r, some f => some (.setDur r f)
-    | _, _ => none
-  | _ => none
-def parseAppEv : List String → Option AppEv
-  | ["run"] => some (.run true) | ["close"] => some .close | ["install"] => some .install | ["scan"] => some .scan
-  | ["fix"] => some .fix | ["compromise"] => some .compromise | ["tick"] => some .tick
-  | ["setdur", i, f] => match i.toInt?, f.toInt? with
-    | some i, some f => some (.setDur i f)
-    | _, _ => none
-  | _ => none
-
-def parseList (s : String) : Option (List Nat) :=
-  if s = "-" then some [] else (s.splitOn ",").mapM String.toNat?
-
-/-- `cid` = the Python class; `flags` = three digits: ctorRuns, baseRoutes, genericExecute -/
-def parseCls (cid name port proto flags : String) : Option Cls :=
-  match port.toNat?, parseProto proto, flags.toList with
-  | some p, some pr, [r, b, x] =>
-    match parseBool (String.singleton r), parseBool (String.singleton b), parseBool (String.singleton x) with
-    | some r, some b, some x =>
-      some { cid := cid, name := name, port := p, proto := pr, ctorRuns := r, baseRoutes := b, genericExecute := x }
-    | _, _, _ => none
-  | _, _, _ => none
-
-def showOptInt : Option Int → String
-  | none => "-" | some i => toString i
-
-def sortNat (l : List Nat) : List Nat := (l.toArray.qsort (· < ·)).toList
-def sortStr (l : List String) : List String := (l.toArray.qsort (· < ·)).toList
-
-def showOut : Out → String
-  | .done => "ok"
-  | .ret b => s!"ret {showBool b}"
-  | .status s => showStatus s
-  | .raised => "raised"
-  | .ignored => "ignored"
-  | .unmodelled => "unmodelled"
-  | .recv l => "recv " ++ ",".intercalate (l.map fun (u, h) => s!"{u}:{showBool h}")
-
-def showSoft (w : Soft) : String :=
-  s!"{showHealth w.actual}/{showHealth w.visible}/{showOptInt w.fixCd}/{w.fixCount}"
-
-/-- the whole observable state on one line -/
-def dump (n : Node) : String :=
-  let svc := n.services.map fun u => match n.findSvc u with
-    | some i => s!"{u}:{i.m.cls.name}:{showSvcState i.s.st}:{showOptInt i.s.cd}:{showSoft i.s.sw}"
-    | none => s!"{u}:?"
-  let app := n.applications.map fun u => match n.findApp u with
-    | some i => s!"{u}:{i.m.cls.name}:{showAppState i.a.st}:{showOptInt i.a.cd}:{showSoft i.a.sw}"
-    | none => s!"{u}:?"
-  let kv (l : List (String × Nat)) := ",".intercalate (sortStr (l.map fun (k, v) => s!"{k}={v}"))
-  let pm := ",".intercalate (sortStr (n.portMap.map fun ((p, pr), v) => s!"{p}/{showProto pr}={v}"))
-  let op := ",".intercalate ((sortNat n.openPorts.eraseDups).map toString)
-  s!"{showPower n.power} S[{" ".intercalate svc}] A[{" ".intercalate app}] SW[{kv n.software}] PM[{pm}] " ++
-  s!"SR[{kv n.svcRoutes}] AR[{kv n.appRoutes}] CM[{",".intercalate (sortStr (n.classMap.map fun (k, v) => s!"{k}={v}"))}] OPEN[{op}]"
-
-def step (n : Node) (ws : List String) : Node × String :=
-  let run (op : Op) : Node × String := let (n', o) := n.step op; (n', showOut o)
-  match ws with
-  | ["node", p, up, down] =>
-    match parsePower p, up.toInt?, down.toInt? with
-    | some p, some up, some down => ({ power := p, upDur := up, downDur := down }, "ok")
-    | _, _, _ => (n, "bad-op")
-  | ["rinst", name, "-"] => run (.reqInstall name none)
-  | ["rinst", name, cid, cname, port, proto, flags, listen] =>
-    match parseCls cid cname port proto flags, parseList listen with
-    | some c, some l => run (.reqInstall name (some (c, l)))
-    | _, _ => (n, "bad-op")
-  | [k, cid, name, port, proto, flags, cfg, listen, health, fixDur] =>
-    match parseCls cid name port proto flags, parseBool cfg, parseList listen, parseHealth health, fixDur.toInt? with
-    | some c, some g, some l, some h, some f =>
-      if k = "isvc" then run (.installSvc c g l h f)
-      else if k = "iapp" then run (.installApp c g l h f)
-      else (n, "bad-op")
-    | _, _, _, _, _ => (n, "bad-op")
-  | ["uninst", name] => run (.uninstall name)
-  | ["runinst", name] => run (.reqUninstall name)
-  | ["sreq", name, r] =>
-    match parseSvcReq r with
-    | some r => run (.svcReq name r)
-    | none => (n, "bad-op")
-  | ["areq", name, r] =>
-    match parseAppReq r with
-    | some r => run (.appReq name r)
-    | none => (n, "bad-op")
-  | ["sapi", u, "send"] | ["aapi", u, "send"] =>
-    match u.toNat? with
-    | some u => run (.send u)
-    | none => (n, "bad-op")
-  | "sapi" :: u :: ev =>
-    match u.toNat?, parseSvcEv ev with
-    | some u, some e => run (.svcApi u e)
-    | _, _ => (n, "bad-op")
-  | "aapi" :: u :: ev =>
-    match u.toNat?, parseAppEv ev with
-    | some u, some e => run (.appApi u e)
-    | _, _ => (n, "bad-op")
-  | ["tick"] => run .tick
-  | ["pon"] => run .powerOn
-  | ["poff"] => run .powerOff
-  | ["rstart"] => run .reqStartup
-  | ["rshut"] => run .reqShutdown
-  | ["deliver", port, proto, scan] =>
-    match port.toNat?, parseProto proto, parseBool scan with
-    | some p, some pr, some s => run (.deliver p pr s)
-    | _, _, _ => (n, "bad-op")
-  | ["frame", "icmp", scan] =>
-    match parseBool scan with
-    | some s => run (.frame .icmp s)
-    | none => (n, "bad-op")
-  | ["frame", h, port, scan] =>
-    match port.toNat?, parseBool scan with
-    | some p, some s =>
-      if h = "tcp" then run (.frame (.tcp p) s) else if h = "udp" then run (.frame (.udp p) s) else (n, "bad-op")
-    | _, _ => (n, "bad-op")
-  | ["dump"] => (n, dump n)
-  | _ => (n, "bad-op")
-
-def main : IO Unit := runDriver ({} : Node) step
+def main : IO Unit := runDriver ({} : Node) Primaite.C13Wire.step
